@@ -160,7 +160,8 @@ func (w *world) opSubmit() {
 		post := w.N.App.GetNonce(s.Addr)
 		if res != nil && post != pre {
 			// not a violation by itself (the statement does not mention the speculative state); remembered to explain one
-			w.taint[s.Addr] = res.Error()
+			w.taint[s.Addr] = t.Class
+			w.taintInfo[s.Addr] = fmt.Sprintf("tx %s (class %s, nonce %s) rejected with %q moved the speculative nonce %d -> %d", short(t.Hash), t.Class, w.nonceStr(t), res.Error(), pre, post)
 			w.c.Count("rejected_tx_advanced_speculative_nonce/"+res.Error(), 1)
 		}
 	}
@@ -223,7 +224,7 @@ func (w *world) opCommitSelf() {
 	if blk == nil {
 		return
 	}
-	w.taint = map[common.Address]string{}
+	w.taint, w.taintInfo = map[common.Address]string{}, map[common.Address]string{}
 	after := fmt.Sprintf("commit of own block %d (%d txs, drop0=%v)", blk.Height, blk.NumTxs, drop)
 	w.log(opRec{Op: "commit", Class: "self", Res: fmt.Sprintf("h=%d txs=%d", blk.Height, blk.NumTxs), Note: fmt.Sprintf("drop0=%v", drop)})
 	w.afterOp(opCtx{kind: "commit", sender: -1}, after)
@@ -243,7 +244,7 @@ func (w *world) opCommitForeign() {
 	if blk == nil {
 		return
 	}
-	w.taint = map[common.Address]string{}
+	w.taint, w.taintInfo = map[common.Address]string{}, map[common.Address]string{}
 	after := fmt.Sprintf("commit of foreign block %d (%d txs, drop0=%v)", blk.Height, blk.NumTxs, drop)
 	w.log(opRec{Op: "commit", Class: "foreign", Res: fmt.Sprintf("h=%d txs=%d", blk.Height, blk.NumTxs), Note: fmt.Sprintf("drop0=%v", drop)})
 	w.afterOp(opCtx{kind: "commit", sender: -1}, after)
